@@ -22,12 +22,20 @@
     list).  The `kill` precedes the child's `exit` in program order, so a child with an unsent entry
     cannot take its last step.
 
+  Order of the caught signals: arrival order — exact for signals that arrive while the shell is blocked inside
+  `select` (always the case under the executor: other processes run only while the shell is blocked); a signal that
+  arrives while the shell is NOT in `select` stays pending in a `Sigset` (a `BTreeSet`) and the next `select`
+  delivers those in ascending signal number — a difference visible only with two distinct trapped signals pending
+  outside `select`, which needs pre-emption between a wake-up and the next `select`.
+
   Not modelled: `signals.contains(SIGINT) && env.sigint_has_default_action()` (interactive shells only: a
   defaulted SIGINT kills a non-interactive shell), signals that are neither trapped nor ignored (they
-  end the shell), a trap set for SIGCHLD itself, what the trap action does (its `Result` is passed on).
+  end the shell), what the trap action does (its `Result`/divert is passed on; the exit status of the built-in is
+  `ExitStatus::from(signal)` whatever the action's own status).
 -/
 import YashModel.Proc.Lemmas
 namespace YashModel.Proc
+open YashModel.Generated.ProcConsts (EXIT_SUCCESS)
 
 /-- how `wait_while_running(job_status(j))` ends -/
 inductive TrapOut where
@@ -37,6 +45,8 @@ inductive TrapOut where
   | nothing
   /-- `Err(Trapped(sig, _))`: the trap action of `sig` was run, the built-in ends with `ExitStatus::from(sig)` -/
   | trapped (sig : Nat)
+  /-- a single `wait_for_any_job_or_trap` returned `Ok(())`: the state of child `i` was recorded (bare `wait`) -/
+  | changed (i : Nat)
   deriving DecidableEq, Repr
 
 structure TSys where
@@ -51,6 +61,9 @@ structure TSys where
   flags : List Nat := []
   /-- `(child, signal)`: that child will send that signal to the shell before it exits -/
   senders : List (Nat × Nat) := []
+  /-- `true`: ONE call of `wait_for_any_job_or_trap` (the caller, `any_job_is_running` of a `wait` without
+      operands, looks at the whole job list after every `Ok(())`); `false`: `wait_while_running(job_status(job))` -/
+  single : Bool := false
   out : Option TrapOut := none
   deriving Repr
 
@@ -71,6 +84,19 @@ def TSys.start (s : Sys) (j : Nat) (traps : List Nat) (senders : List (Nat × Na
   | none => { sys := { s with target := .any, todo := [], pc := .enable }, job := j, traps := traps,
               senders := senders }
 
+/-- The next operand of the same built-in (`for index in indexes { … wait_while_running(job_status(index)).await? }`,
+    `Command::await_jobs`): pending signals, trap flags and senders carry over. -/
+def TSys.next (t : TSys) (j : Nat) : TSys :=
+  match jobDone t.sys.log j with
+  | some r => { t with sys := { t.sys with target := .any, todo := [], pc := .done }, job := j, single := false,
+                       out := some (.finished j r) }
+  | none => { t with sys := { t.sys with target := .any, todo := [], pc := .enable }, job := j, single := false,
+                     out := none }
+
+/-- one more `wait_for_any_job_or_trap` of a `wait` without operands -/
+def TSys.call (t : TSys) : TSys :=
+  { t with sys := { t.sys with target := .any, todo := [], pc := .enable }, single := true, out := none }
+
 /-- One step of the shell inside `wait_while_running` / `wait_for_any_job_or_trap`. -/
 def tparentStep (t : TSys) : Option TSys :=
   match t.out with
@@ -85,6 +111,11 @@ def tparentStep (t : TSys) : Option TSys :=
       match sysWait t.sys.children .any with
       | .state i st =>
         -- `env.jobs.update_status(pid, state); return Ok(())`, then `job_status` again
+        if t.single then
+          some { t with sys := { t.sys with children := take t.sys.children i, log := logOf i st ++ t.sys.log,
+                                            pc := .done },
+                        out := some (.changed i) }
+        else
         match jobDone (logOf i st ++ t.sys.log) t.job with
         | some r =>
           some { t with sys := { t.sys with children := take t.sys.children i, log := logOf i st ++ t.sys.log,
@@ -109,12 +140,23 @@ def tparentStep (t : TSys) : Option TSys :=
       else none
     | _ => none
 
+/-- SIGCHLD in the numbering of the model (`Prog.sigNames`: HUP = 1 … CONT = 9, CHLD = 10; observations show names) -/
+def SIGCHLD_NO : Nat := 10
+
+/-- `trap … CHLD`: SIGCHLD has a trap action of its own.  The caught signals of one wake-up are a list in ARRIVAL
+    order (`Process::caught_signals`, a `Vec`: a signal raised while the shell is inside `select` is delivered at
+    once and pushed), so when SIGCHLD can win the race for "first signal with a trap action" its position matters:
+    the exit of a child then also appends SIGCHLD to `sigPending` (once). -/
+def noteChld (t : TSys) (s : Sys) : List Nat :=
+  if !t.sys.pending && s.pending && t.traps.contains SIGCHLD_NO && !t.sigPending.contains SIGCHLD_NO
+  then t.sigPending ++ [SIGCHLD_NO] else t.sigPending
+
 /-- a step of child `i`: as in `Model.lean`, but the child's last step (`exit`) comes after its `kill`s -/
 def tchildStep (t : TSys) (i : Nat) : Option TSys :=
   match t.sys.children[i]? with
   | some c =>
     if c.state = .running 0 c.state.fin ∧ t.senders.any (fun e => e.1 == i) then none
-    else (childStep t.sys i).map fun s => { t with sys := s }
+    else (childStep t.sys i).map fun s => { t with sys := s, sigPending := noteChld t s }
   | none => none
 
 /-- the `k`-th sender entry fires: `kill -s SIG $$` in a live child.  A trapped signal becomes pending at the
@@ -158,7 +200,7 @@ def parentBurst : Nat → TSys → TSys
 
 /-- strictly decreases on every step of the shell, of a child, of a sender (`wait_trap_progress`) -/
 def tmeasure (t : TSys) : Nat :=
-  measure t.sys + 3 * t.sigPending.length + 4 * t.senders.length
+  2 * measure t.sys + 3 * t.sigPending.length + 4 * t.senders.length
 
 /-- one turn of the shell under the executor: it runs until it blocks or the built-in ends (`tmeasure t` steps
     are always enough: `parentTurn_blocked`) -/
@@ -173,6 +215,8 @@ def bstep (t : TSys) : TLabel → Option TSys
 def trun : Nat → List Nat → TSys → TSys
   | 0, _, t => t
   | fuel + 1, choices, t =>
+    if t.out.isSome then t   -- the built-in has ended: the shell goes on with the script
+    else
     match tenabled t with
     | [] => t
     | l :: ls =>
@@ -182,5 +226,58 @@ def trun : Nat → List Nat → TSys → TSys
       match bstep t pick with
       | some t' => trun fuel choices.tail t'
       | none => t
+
+/-! ### the operand loop and the operand-less form on top of it -/
+
+/-- how the whole built-in ends: per-operand statuses (the exit status is the last), or `Err(Trapped(sig, _))`
+    after the operands in `sts` had finished, or `Err(NothingToWait)` / the driver's fuel ran out -/
+inductive OpsOut where
+  | done (sts : List Nat)
+  | trapped (sig : Nat) (sts : List Nat)
+  | failed (sts : List Nat)
+  deriving DecidableEq, Repr
+
+def OpsOut.push (st : Nat) : OpsOut → OpsOut
+  | .done sts => .done (st :: sts)
+  | .trapped σ sts => .trapped σ (st :: sts)
+  | .failed sts => .failed (st :: sts)
+
+/-- `Command::await_jobs` over the resolved operands (`None` / a job index that is gone → `NOT_FOUND`, else
+    `wait_while_running(job_status(i)).await?` — the `?` ends the whole built-in on `Trapped`), `run` being the
+    scheduler that takes a started operand to its end.  Returns the job table, the state and the outcome. -/
+def tawaitJobs (run : TSys → TSys) : List Nat → TSys → List (Option Nat) → List Nat × TSys × OpsOut
+  | jobs, t, [] => (jobs, t, .done [])
+  | jobs, t, none :: ops =>
+    let r := tawaitJobs run jobs t ops
+    (r.1, r.2.1, r.2.2.push (waitStatus .echild))
+  | jobs, t, some i :: ops =>
+    if i ∈ jobs then
+      let u := run (t.next i)
+      match u.out with
+      | some (.finished _ r) =>
+        let q := tawaitJobs run (jobs.erase i) u ops
+        (q.1, q.2.1, q.2.2.push r.status)
+      | some (.trapped σ) => (jobs, u, .trapped σ [])
+      | _ => (jobs, u, .failed [])
+    else
+      let r := tawaitJobs run jobs t ops
+      (r.1, r.2.1, r.2.2.push (waitStatus .echild))
+
+/-- `any_job_is_running`: `job_status` applied to every job removes the finished ones; `Break(SUCCESS)` when none is left -/
+def unfinished (jobs : List Nat) (log : List (Nat × Result)) : List Nat :=
+  jobs.filter fun j => (jobDone log j).isNone
+
+/-- `wait` without operands: `wait_while_running(any_job_is_running)` — `k` bounds the iterations (driver's fuel) -/
+def tawaitAll (run : TSys → TSys) : Nat → List Nat → TSys → List Nat × TSys × OpsOut
+  | 0, jobs, t => (unfinished jobs t.sys.log, t, .failed [])
+  | k + 1, jobs, t =>
+    match unfinished jobs t.sys.log with
+    | [] => ([], t, .done [EXIT_SUCCESS])
+    | j :: js =>
+      let u := run t.call
+      match u.out with
+      | some (.changed _) => tawaitAll run k (j :: js) u
+      | some (.trapped σ) => (j :: js, u, .trapped σ [])
+      | _ => (j :: js, u, .failed [])
 
 end YashModel.Proc
